@@ -57,9 +57,29 @@ def classify(f):
     return "scope/" + feat, ev, src
 
 
+def later_defaults(f):
+    """Further signatures of a rejected program: every parameter default that names an EARLIER parameter of its function and does
+    not share that parameter's Var (the first differing pair alone would name only the first defect of the program)."""
+    tr = f["trace"]
+    o, ev = tr[0], tr[f["i"]]
+    exp, obs, kinds = o.get("exp") or [], ev.get("obs") or [], o.get("kinds") or []
+    out = []
+    if ev.get("out") == "ret" and ev["ev"] in ("Vars", "Reparse") and len(exp) == len(obs) == len(kinds):
+        for i in range(len(exp)):
+            if kinds[i] == "default" and any(kinds[k] == "param" and exp[k] == exp[i] and obs[k] != obs[i] for k in range(i)):
+                out.append("scope/default-after-its-parameter/expected:param/observed:%s" % ("free" if obs[i] < 0 else "another-var"))
+    return out
+
+
 def judge(ck, fails):
     for f in fails:
         sig, ev, src = classify(f)
+        for extra in later_defaults(f):
+            if extra not in ck.violations and extra not in ck.known_hits:
+                ck.violation(extra, "js.Parse on %s: a parameter default naming an earlier parameter is not bound to it; expected partition %s, observed %s" % (
+                    json.dumps(src), f["trace"][0]["exp"], ev.get("obs")),
+                    {"suite": "scope", "src": src, "trace": f["trace"][: f["i"] + 1], "rejected_event_index": f["i"],
+                     "how": "bin/check C04 re-generates and re-runs the programs; this program is in 'src'"})
         if sig in ck.violations or sig in ck.known_hits:
             ck.violation(sig, "", {})
             continue
